@@ -175,7 +175,23 @@ func genRoots(fam []string, p int64) generator {
 		EA := func(num, den *big.Int, d int) { emitRoot(emit, r, fam, num, den, d, true) }
 		// numerator and denominator of more than a thousand bits each, more than 300 digits deep (one radicand, every
 		// version: the model needs about half a minute for a cube root of this size)
-		EA(r.BigDigits(325), r.BigDigits(312), 318)
+		ED := func(num, den *big.Int, d int) {
+			for _, v := range allVers {
+				emit(Case{Ver: v, Op: "Deep" + fam[3], Args: toks{num.String(), den.String(), itoa(d)}})
+				if den.Cmp(one) == 0 {
+					emit(Case{Ver: v, Op: "Deep" + fam[2], Args: toks{num.String(), "1", itoa(d)}})
+				}
+			}
+		}
+		ED(r.BigDigits(325), r.BigDigits(312), 318)
+		ED(r.BigDigits(400), r.BigDigits(330), 330)
+		ED(r.BigDigits(700), one, 340)
+		// a terminating root whose radicand has both parts beyond a thousand bits: (a / 5^150)^p
+		{
+			a5 := r.BigDigits(110)
+			b5 := new(big.Int).Exp(big.NewInt(5), big.NewInt(150), nil)
+			ED(new(big.Int).Exp(a5, P, nil), new(big.Int).Exp(b5, P, nil), 330)
+		}
 		// roots whose leading digits cross machine-word boundaries (2^31, 2^32, 2^53, 2^63, 2^64)
 		for _, w := range []uint{31, 32, 53, 63, 64} {
 			b := new(big.Int).Lsh(one, w)
@@ -576,6 +592,14 @@ func init() {
 	ops := map[string]runner{}
 	for _, c := range append(append([]string{}, sqrtCtors...), cubeCtors...) {
 		ops[c] = runRoot
+	}
+	for _, c := range []string{"SqrtBigInt", "SqrtBigRat", "CubeRootBigInt", "CubeRootBigRat", "FromBigRat"} {
+		c := c
+		ops["Deep"+c] = func(cs *Case) []string {
+			cc := *cs
+			cc.Op = c
+			return runRoot(&cc)
+		}
 	}
 	ops["Pair"] = runPair
 	ops["ConcRoots"] = runConcRoots
